@@ -79,6 +79,25 @@ def driver_legs(driver, tier, scale=1.0, with_bfs=True):
     return out
 
 
+def san_legs(driver, tier, k=3, asan_events=None, miri_events=None, miri_shards=None):
+    """Sanitizer legs for the memory-class properties: the same histories under AddressSanitizer and
+    under Miri, half of them with the structural monitor switched off (`--no-inspect`) so that a
+    dangling waiter is actually followed and the tool - not the monitor - sees the use-after-free."""
+    q = tier == "quick"
+    ae = asan_events or (150_000 if q else 3_000_000)
+    me = miri_events or (90 if q else 250)
+    ms = miri_shards or (2 if q else 8)
+    out = [
+        hist(f"{driver}-asan-raw", driver, variant="asan", events=ae, k=k, shards=2 if q else 6, extra=["--no-inspect", "--no-shrink"], leaks=False, seed_offset=1000),
+        hist(f"{driver}-asan", driver, variant="asan", events=ae // 2, k=k + 1, shards=1 if q else 4, extra=["--no-shrink"], seed_offset=2000),
+        hist(f"{driver}-miri-raw", driver, variant="miri", events=me, k=k, shards=ms, extra=["--no-inspect", "--no-shrink"], timeout=2400, seed_offset=3000),
+        hist(f"{driver}-miri", driver, variant="miri", events=me, k=k, shards=ms, extra=["--no-shrink"], timeout=2400, seed_offset=4000),
+    ]
+    if not q:
+        out.append(hist(f"{driver}-memcheck", driver, events=300_000, k=k, shards=2, extra=["--no-inspect", "--no-shrink"], valgrind=True, timeout=3000, seed_offset=5000))
+    return out
+
+
 ALL_DRIVERS = ["mutex", "semaphore", "event", "timer", "oneshot", "state", "mpmc"]
 
 
@@ -91,7 +110,7 @@ def all_drivers(tier, scale=0.4):
 
 def c19(tier):
     q = tier == "quick"
-    return [
+    return san_legs("ringbuf", tier, k=1, miri_events=250 if q else 600, miri_shards=4 if q else 12) + [
         hist("ringbuf-sweep", "ringbuf", mode="sweep", events=400_000_000, k=1, shards=16, extra=["--max-depth", "12" if q else "16"], timeout=1800),
         hist("ringbuf-rand", "ringbuf", events=1_000_000 if q else 20_000_000, k=1, shards=8),
         hist("ringbuf-dbg", "ringbuf", variant="dbg", events=500_000 if q else 5_000_000, k=1, shards=4, seed_offset=31),
@@ -100,7 +119,7 @@ def c19(tier):
 
 def c20(tier):
     q = tier == "quick"
-    return [
+    return san_legs("list", tier, k=4, miri_events=150 if q else 400, miri_shards=3 if q else 8) + san_legs("heap", tier, k=5, miri_events=150 if q else 400, miri_shards=3 if q else 8) + [
         hist("list-sweep", "list", mode="sweep", events=2_000_000_000, k=4, shards=1, extra=["--max-depth", "6" if q else "7"], timeout=3000),
         hist("list-bfs", "list", mode="bfs", events=50_000_000, k=5 if q else 6, shards=1),
         hist("heap-sweep", "heap", mode="sweep", events=2_000_000_000, k=5, shards=1, extra=["--max-depth", "8" if q else "10"], timeout=3000),
@@ -122,14 +141,14 @@ PLAN = {
     "C16": lambda tier: [{"kind": "probes", "name": "probe-matrix"}],
     "C19": c19,
     "C20": c20,
-    "C01": lambda tier: all_drivers(tier),
+    "C01": lambda tier: all_drivers(tier) + [l for d in ALL_DRIVERS for l in san_legs(d, tier)] + san_legs("mpmc-bval", tier),
     "C02": lambda tier: driver_legs("mutex", tier),
     "C03": lambda tier: driver_legs("mutex", tier),
     "C04": lambda tier: driver_legs("mutex", tier),
     "C05": lambda tier: driver_legs("semaphore", tier),
     "C06": lambda tier: driver_legs("semaphore", tier),
     "C07": lambda tier: driver_legs("semaphore", tier),
-    "C08": lambda tier: driver_legs("mpmc", tier),
+    "C08": lambda tier: driver_legs("mpmc", tier) + san_legs("mpmc-bval", tier, miri_shards=4 if tier == "quick" else 12),
     "C09": lambda tier: driver_legs("mpmc", tier),
     "C10": lambda tier: driver_legs("mpmc", tier),
     "C11": lambda tier: driver_legs("mpmc", tier, 0.6) + driver_legs("oneshot", tier, 0.6) + driver_legs("state", tier, 0.6),
